@@ -6,14 +6,18 @@ from .. import dfa_common as dc
 ID = 'C27'
 LEVEL = 'exploration'
 TECHNIQUE = 'element-level value-flow ground truth from a reference-interpreter trace must be contained in loop_carried_dependencies / read_after_write_vars'
-RULE = ('programs as for C26 (loops with recurrences, accumulators, shifted array reads, conditionally updated scalars). For every read in the '
-        'trace the last write of the same storage element is looked up and the two execution contexts are compared: if they diverge at two '
-        'iterations i<j of the same loop execution the variable is truly loop-carried for that loop; if they diverge at sibling statements '
-        's_w < s_r of one execution of a body, the value truly flows across every inspection point k with s_w < k <= s_r. Oracle: the variable is '
-        'in loop_carried_dependencies(loop) resp. read_after_write_vars(body, node_k). Inspection bodies: routine body and loop bodies. '
+RULE = ('programs as for C26 (loops with recurrences, accumulators, shifted array reads, conditionally updated scalars, ASSOCIATE blocks) without '
+        'size/lbound/ubound references. For every read in the trace the last write of the same storage element is looked up and the two '
+        'execution contexts are compared: if they diverge at two iterations i<j of the same loop execution the variable is truly loop-carried '
+        'for that loop; if they diverge at sibling statements s_w < s_r of one execution of a body, the value truly flows across every '
+        'inspection point k with s_w < k <= s_r. Oracle: the variable is in loop_carried_dependencies(loop) resp. '
+        'read_after_write_vars(body, node_k). Inspection bodies: routine body and loop bodies. A miss is classified by root cause from the '
+        'analysed IR (model of FindReads that records where the candidate was dropped; mirror of the kill rule of _visit_body). '
         'non-trivial = the trace has at least one true carried or read-after-write flow; distinct by case hash')
 ASSUMPTIONS = ['element-level truth is a subset of any sound variable-level report, so imprecision of the analysis cannot alarm, only misses',
-               'DO variables are exempt (documented)', 'reads/writes inside callees are attributed to the call statement of the inspected routine']
+               'DO variables are exempt (documented)', 'reads/writes inside callees are attributed to the call statement of the inspected routine',
+               'an associate name and its selector are the same variable: loki may report either spelling',
+               'interpreter self-check as for C26 (classes selfcheck:*)']
 SHARDS = {'quick': 8, 'thorough': 16}
 BUDGET = {'quick': 70, 'thorough': 1500}
 
